@@ -1,36 +1,39 @@
 (* line driver for the C04 model.
-   mode "accept" (default): one recording per line:  <app0> <worker0> <event> <event> ...
+   mode "accept" (default): one recording per line:  <app0> <worker0> <number of stoppers> <event> <event> ...
      events: P<i> post (hook own.locked)   T take (worker.before_process)   D<i>a / D<i>s deliver
              (a = on the worker, s = synchronously on the caller)   N done (worker.decremented)
-             L reset.locked   W reset.waiting   Q reset.quit   S a stop call has returned
+             L<i> reset.locked   W<i> reset.waiting   Q<i> reset.quit   S<i> a stop call has returned
+             (i = stopper thread, 0 if omitted)
              G application object gone   M moveToOwnThread   R<i> logging call returned   X exit
      output: "OK" or "REJ <k>" (index of the first impossible event) followed by the model state
-             reached: stuck= worker= rpc= app= mtx= pending= qlen= inflight= log= accepted= obs=
+             reached: stuck= err= rc= worker= stops= app= mtx= pending= qlen= inflight= log= accepted= obs=
    mode "oracle": "<posted ids,> | <delivered ids,> | <stopped 0/1>"  ->  1/0  (prop_c04_b)
-   mode "run": "<app0> <worker0> <action> ..." actions p<i> t d s c w g m (APost ATake ADone
+   mode "run": "<app0> <worker0> <k> <action> ..." actions p<m> t d s<i> c<i> w<i> g m (APost ATake ADone
              AResetStart AResetCheck AResetWake AAppDie AMove) -> final state *)
 open Shutdown_model
 let rec nat_of_int n = if n <= 0 then O else S (nat_of_int (n-1))
 let int_of_nat n = let rec go a = function O -> a | S m -> go (a+1) m in go 0 n
 let rec len = function [] -> 0 | _ :: t -> 1 + len t
 let tail_int s = int_of_string (String.sub s 1 (String.length s - 1))
+let idx s = if String.length s > 1 then nat_of_int (tail_int s) else O
 let ev_of tok = match tok.[0] with
   | 'P' -> EPost (nat_of_int (tail_int tok))
   | 'T' -> ETake
   | 'D' -> let n = String.length tok in
            EDeliver (nat_of_int (int_of_string (String.sub tok 1 (n-2))), tok.[n-1] = 's')
-  | 'N' -> EDone | 'L' -> EResetLocked | 'W' -> EResetWaiting | 'Q' -> EResetQuit | 'S' -> EStopEnd
+  | 'N' -> EDone | 'L' -> EResetLocked (idx tok) | 'W' -> EResetWaiting (idx tok) | 'Q' -> EResetQuit (idx tok)
+  | 'S' -> EStopEnd (idx tok)
   | 'G' -> EAppGone | 'M' -> EMove | 'R' -> EReturned (nat_of_int (tail_int tok)) | 'X' -> EExit
   | _ -> failwith ("bad event " ^ tok)
 let act_of tok = match tok.[0] with
-  | 'p' -> APost (nat_of_int (tail_int tok)) | 't' -> ATake | 'd' -> ADone | 's' -> AResetStart
-  | 'c' -> AResetCheck | 'w' -> AResetWake | 'g' -> AAppDie | 'm' -> AMove
+  | 'p' -> APost (nat_of_int (tail_int tok)) | 't' -> ATake | 'd' -> ADone | 's' -> AResetStart (idx tok)
+  | 'c' -> AResetCheck (idx tok) | 'w' -> AResetWake (idx tok) | 'g' -> AAppDie | 'm' -> AMove
   | _ -> failwith ("bad action " ^ tok)
 let b2 b = if b then 1 else 0
 let show_state s nobs =
-  Printf.sprintf "stuck=%d worker=%d rpc=%s app=%d mtx=%d pending=%d qlen=%d inflight=%s log=%d accepted=%d obs=%d"
-    (b2 (stuck_b s)) (b2 s.worker)
-    (match s.rpc with RIdle -> "I" | RCheck -> "C" | RSleep -> "S" | RDone -> "D")
+  Printf.sprintf "stuck=%d err=%d rc=%d worker=%d stops=%s app=%d mtx=%d pending=%d qlen=%d inflight=%s log=%d accepted=%d obs=%d"
+    (b2 (stuck_b s)) (b2 (errorb s)) (b2 rc_src) (b2 s.worker)
+    (String.concat "" (List.map (function RIdle -> "I" | RCheck -> "C" | RSleep -> "S" | RDone -> "D" | RError -> "E") s.stops))
     (b2 s.app0) (b2 s.mtx) (int_of_nat s.pending) (len s.queue)
     (match s.inflight with None -> "-" | Some m -> string_of_int (int_of_nat m))
     (len s.log) (len s.accepted) nobs
@@ -48,11 +51,12 @@ let () =
         | _ -> print_endline "ERR"
       end else begin
         match toks line with
-        | a0 :: w0 :: rest ->
+        | a0 :: w0 :: k :: rest ->
+          let k = nat_of_int (int_of_string k) in
           if mode = "run" then
-            print_endline (show_state (run (init (a0 = "1") (w0 = "1")) (List.map act_of rest)) 0)
+            print_endline (show_state (run_src (init (a0 = "1") (w0 = "1") k) (List.map act_of rest)) 0)
           else begin
-            match accept_shutdown (a0 = "1") (w0 = "1") (List.map ev_of rest) with
+            match accept_src (a0 = "1") (w0 = "1") k (List.map ev_of rest) with
             | Accepted a -> print_endline ("OK " ^ show_state a.ms (len a.obs))
             | Rejected (k, a) -> print_endline (Printf.sprintf "REJ %d %s" (int_of_nat k) (show_state a.ms (len a.obs)))
           end
